@@ -49,9 +49,13 @@ def main():
     rc1, o1 = sh(demo_cmd, cwd=wt)
     meta["ran"].append(dict(cmd=" ".join(demo_cmd), tree="with change", rc=rc1, tail=o1[-600:]))
     # (2) without
-    sh(["git", "stash", "push", "--"] + changed, cwd=wt)
+    # (never `git stash` here: the stash is shared by all worktrees of /repo)
+    pf = os.path.join(out, "patch.diff")
+    sh(["git", "apply", "-R", pf], cwd=wt)
     rc2, o2 = sh(demo_cmd, cwd=wt)
-    sh(["git", "stash", "pop"], cwd=wt)
+    rcA, oA = sh(["git", "apply", pf], cwd=wt)
+    if rcA != 0:
+        print("WARNING: could not re-apply the patch:", oA)
     meta["ran"].append(dict(cmd=" ".join(demo_cmd), tree="without change", rc=rc2, tail=o2[-300:]))
     # (3) baseline with the change, demo moved away
     hidden = []
